@@ -12,17 +12,26 @@ Core Lean only (no Mathlib import).
 namespace ProcSim
 
 /- `AMap K V` is a plain `def` for `List (K × V)`; the proofs below constantly move between the two views, so the
-definition is made reducible *locally* (downstream proof files may want the same line). -/
-attribute [local reducible] AMap
+definition is made transparent to unification *locally* (downstream proof files may want the same line). -/
+attribute [local implicit_reducible] AMap
 
 /-! ## 1. `AMap` algebra -/
 
 namespace AMap
-variable {K V : Type} [DecidableEq K]
+variable {K V : Type}
+
+/-- the entries of the map as a list (`AMap` is not reducible, so `∈` needs this view) -/
+def toList (m : AMap K V) : List (K × V) := m
+
+@[simp] theorem toList_nil : toList ([] : List (K × V)) = [] := rfl
+
+@[simp] theorem toList_cons (p : K × V) (m : List (K × V)) : toList (p :: m : List (K × V)) = p :: toList m := rfl
 
 @[simp] theorem keys_nil : keys ([] : List (K × V)) = [] := rfl
 
 @[simp] theorem keys_cons (p : K × V) (m : List (K × V)) : keys (p :: m : List (K × V)) = p.1 :: keys m := rfl
+
+variable [DecidableEq K]
 
 theorem get?_cons (k' : K) (v : V) (m : List (K × V)) (k : K) :
     get? ((k', v) :: m : List (K × V)) k = if k' = k then some v else get? m k := rfl
@@ -51,7 +60,7 @@ theorem mem_keys_of_get?_eq_some {m : AMap K V} {k : K} {v : V} (h : m.get? k = 
 
 /-- a bound key is bound to an entry of the list -/
 theorem mem_of_get?_eq_some {m : AMap K V} {k : K} {v : V} (h : m.get? k = some v) :
-    (k, v) ∈ (m : List (K × V)) := by
+    (k, v) ∈ m.toList := by
   induction m with
   | nil => cases h
   | cons p m ih =>
@@ -63,7 +72,7 @@ theorem mem_of_get?_eq_some {m : AMap K V} {k : K} {v : V} (h : m.get? k = some 
       exact List.mem_cons_of_mem _ (ih h)
 
 /-- with duplicate-free keys every entry is the binding of its key -/
-theorem get?_of_mem {m : AMap K V} {k : K} {v : V} (hn : m.keys.Nodup) (h : (k, v) ∈ (m : List (K × V))) :
+theorem get?_of_mem {m : AMap K V} {k : K} {v : V} (hn : m.keys.Nodup) (h : (k, v) ∈ m.toList) :
     m.get? k = some v := by
   induction m with
   | nil => cases h
@@ -170,11 +179,11 @@ theorem mem_keys_of_get_ne_nil {u : Util N} {n : N} (h : u.get n ≠ []) : n ∈
 
 /-- with duplicate-free keys every entry is what `get` returns -/
 theorem get_of_mem {u : Util N} {n : N} {l : List HI} (hn : (AMap.keys u).Nodup)
-    (h : (n, l) ∈ (u : List (N × List HI))) : u.get n = l := by
+    (h : (n, l) ∈ AMap.toList u) : u.get n = l := by
   simp [Util.get, AMap.get?_of_mem hn h]
 
 /-- a non-empty `get` comes from an entry -/
-theorem mem_of_get_ne_nil {u : Util N} {n : N} (h : u.get n ≠ []) : (n, u.get n) ∈ (u : List (N × List HI)) := by
+theorem mem_of_get_ne_nil {u : Util N} {n : N} (h : u.get n ≠ []) : (n, u.get n) ∈ AMap.toList u := by
   unfold Util.get at h ⊢
   cases hg : AMap.get? u n with
   | none => simp [hg] at h
